@@ -6,6 +6,7 @@ import (
 	"errors"
 	"fmt"
 	"os"
+	"runtime"
 	"strings"
 	"testing"
 	"time"
@@ -638,6 +639,29 @@ func TestEachFamily(t *testing.T) {
 	}
 	rec.Bulk(n, n, "each-family:"+buildName())
 	rec.Exhaustive(fmt.Sprintf("every method family (%d) x 12 value selectors (incl. empty Dict/Array/Object/Func) x 6 logger kinds, %s build", len(families), buildName()))
+}
+
+// TestSizeSweep walks the encoded size of an event byte by byte across the capacity classes of the
+// pooled buffer, starting from an emptied pool (fresh 500-byte buffers): an event that exactly
+// fills its buffer, or overflows it by the terminator alone, must leave a buffer behind that the
+// next event of that size fits into.
+func TestSizeSweep(t *testing.T) {
+	var n int64
+	for _, lg := range []string{"bare", "ctx"} {
+		for _, fin := range []string{"msg", "send"} {
+			runtime.GC() // two cycles empty sync.Pool, victim cache included
+			runtime.GC()
+			for big := 380; big <= 1100; big++ {
+				c := &Case{Logger: lg, Fin: fin, Build: buildName(), Steps: []Step{{M: "bool", V: 1}}, Big: big}
+				n++
+				if msg, _ := run(c); msg != "" {
+					fail(t, "sweep", c, fmt.Sprintf("with a %d-byte field on a fresh pool: %s", big, msg))
+				}
+			}
+		}
+	}
+	rec.Bulk(n, n, "size-sweep:"+buildName())
+	rec.Sample(map[string]interface{}{"campaign": "size sweep 380..1100 bytes across the pooled buffer's capacity classes", "cases": n})
 }
 
 func hasFamily(m string) bool {
